@@ -72,6 +72,16 @@ def make_case(rng, nq=None, na=None, nv=None, temps=None, generic=True, gamma_ga
         if rng.random() < 0.5:
             temps[1] = rng.uniform(5.0, 30.0)
             temps = [temps[0]] + sorted(temps[1:])
+        # the property quantifies over ALL grids with T >= 0: not only ascending ones starting at 0
+        r = rng.random()
+        if r < 0.2:
+            temps = temps[::-1]                       # descending, 0 K last
+        elif r < 0.4:
+            rng.shuffle(temps)                        # 0 K anywhere
+        elif r < 0.5:
+            temps.insert(rng.randrange(len(temps) + 1), 0.0)   # 0 K listed twice
+        elif r < 0.6:
+            temps = temps[1:]                         # no 0 K at all
     sp = Spectrum(rng, nq, np_, v0, generic)
     fr, ga, vd = sp.arrays(vols, rng)
     if gamma_garbage:
